@@ -15,7 +15,7 @@ import xmlsec_core  # noqa: E402
 logging.disable(logging.CRITICAL)
 
 import saml2_tophat  # noqa: E402
-assert saml2_tophat.__file__.startswith("/repo/src/"), saml2_tophat.__file__
+assert saml2_tophat.__file__.startswith((os.environ.get("VERIF_REPO") or "/repo") + "/src/"), saml2_tophat.__file__
 from saml2_tophat import BINDING_HTTP_POST, BINDING_HTTP_REDIRECT, BINDING_SOAP  # noqa: E402
 from saml2_tophat import sigver, time_util, algsupport  # noqa: E402
 from saml2_tophat.config import SPConfig, IdPConfig  # noqa: E402
